@@ -231,7 +231,45 @@ def rule_r34(chk, prog, paths):
 
         # "A or <popv in repl>" holding means: A held (the identity hit) or
         # the structural lookup was made
-        by_eq = any(mentions(t, f'{popv} in {repl}') for t in texts)
+        def lookup_made(t, pol, what):
+            """Does fact (t, pol) guarantee that the membership test
+            ``what`` was evaluated?  In a false conjunction only the
+            operands before the first false one are evaluated: the test
+            counts only when nothing but emptiness tests of the map
+            precedes it (an empty map has no entry to find)."""
+            try:
+                e_ = ast.parse(t, mode='eval').body
+            except SyntaxError:
+                return False
+
+            def made(e, pol):
+                if isinstance(e, ast.UnaryOp) and isinstance(e.op, ast.Not):
+                    return made(e.operand, not pol)
+                if isinstance(e, ast.Compare) and unparse(e) == what:
+                    return True
+                if isinstance(e, ast.BoolOp):
+                    all_eval = isinstance(e.op, ast.And) == pol
+                    for k, v in enumerate(e.values):
+                        sub = any(isinstance(x, ast.Compare)
+                                  and unparse(x) == what
+                                  for x in ast.walk(v))
+                        if not sub:
+                            continue
+                        if isinstance(e.op, ast.Or) or all_eval:
+                            return True
+                        before = [unparse(b) for b in e.values[:k]]
+                        return all(b in (repl, f'len({repl})',
+                                         f'len({repl}) > 0',
+                                         f'len({repl}) != 0',
+                                         f'{repl} is not None')
+                                   for b in before) and made(v, True)
+                    return False
+                return any(isinstance(x, ast.Compare) and unparse(x) == what
+                           for x in ast.walk(e))
+            return made(e_, pol)
+
+        by_eq = any(lookup_made(t, pol, f'{popv} in {repl}')
+                    for (t, pol) in p.facts)
         id_hit = any(t == f'{popv}.id in {repl}' and pol
                      for (t, pol) in p.facts)
         chk.check('C11.R4', where, f'{desc}: both lookups',
